@@ -80,12 +80,14 @@ void probe_dyn(const char *name)
 
 static uint64_t *sset;
 static size_t sset_size, sset_used;
+static uint64_t sset_sample = 1;       /* keep only hashes that fall into a 1/sset_sample slice (thorough tier) */
 #define SSET_CAP (1u << 23)
 
 void state_note(uint64_t h)
 {
     size_t i;
     if (h == 0) h = 1;
+    if (sset_sample > 1 && (h >> 7) % sset_sample != 0) return;
     if (sset_size == 0) {
         sset_size = 1 << 16;
         sset = calloc(sset_size, sizeof(*sset));
@@ -621,6 +623,7 @@ int main(int argc, char **argv)
             if (strcmp(argv[k], "--plans") == 0 && k + 1 < argc) plans_path = argv[++k];
             else if (strcmp(argv[k], "--states") == 0 && k + 1 < argc) states_path = argv[++k];
             else if (strcmp(argv[k], "--trace") == 0) trace = 1;
+            else if (strcmp(argv[k], "--state-sample") == 0 && k + 1 < argc) sset_sample = strtoull(argv[++k], NULL, 10);
         }
         install_handlers();
         if (plans_path) pf = fopen(plans_path, "ab");
